@@ -5,6 +5,8 @@ package main
 // replay counterexamples on the real code, write evidence, report.
 
 import (
+	"regexp"
+	"go/types"
 	"encoding/json"
 	"flag"
 	"fmt"
@@ -67,6 +69,9 @@ func cmdCheck(args []string) int {
 	}
 	return runCheck(o)
 }
+
+var occRe = regexp.MustCompile(`#\d+$`)
+var siteLevelRe = regexp.MustCompile(`#(pre@call|panic\.|assert|effect\.guard|guard\.recover|typeinv\.preserve|canary)`)
 
 type failure struct {
 	o      *Obligation
@@ -138,6 +143,43 @@ func runCheck(o checkOpts) int {
 			}
 		}
 	}
+	// error-propagation obligations for every function of a file
+	for _, pf := range c.cf.PropFiles {
+		if pf.Prop != prop {
+			continue
+		}
+		var ns []string
+		for name, fn := range c.funcs {
+			if fn.Pos().IsValid() && shortFile(c.fset.Position(fn.Pos()).Filename) == pf.File && fn.Blocks != nil {
+				res := fn.Signature.Results()
+				if res.Len() == 0 || types.TypeString(res.At(res.Len()-1).Type(), nil) != "error" {
+					continue
+				}
+				ns = append(ns, name)
+			}
+		}
+		sort.Strings(ns)
+		for _, name := range ns {
+			fc := c.cf.Funcs[name]
+			if fc == nil {
+				fc = &FuncContract{Name: name}
+				c.cf.Funcs[name] = fc
+				c.cf.Order = append(c.cf.Order, name)
+			}
+			if !fc.has("propagates") {
+				fc.Clauses = append(fc.Clauses, &Clause{Kind: "propagates", Props: []string{prop}, Expr: pf.Re, Loop: -1})
+			}
+			found := false
+			for _, n := range fnames {
+				if n == name {
+					found = true
+				}
+			}
+			if !found && (o.only == "" || strings.Contains(name, o.only)) {
+				fnames = append(fnames, name)
+			}
+		}
+	}
 	inList := map[string]bool{}
 	for _, n := range fnames {
 		inList[n] = true
@@ -191,6 +233,20 @@ func runCheck(o checkOpts) int {
 			continue
 		}
 		vcs = append(vcs, vc)
+		onlyProp := true
+		for _, cl := range fc.Clauses {
+			if hasProp(cl, prop) && len(cl.Props) > 0 && cl.Kind != "propagates" {
+				onlyProp = false
+			}
+		}
+		if onlyProp && !jb.sweep {
+			// verified for error propagation only: preconditions of its callees are not part of that claim
+			for _, ob := range vc.obls {
+				if ob.Kind == "pre@call" {
+					ob.Sweep = true
+				}
+			}
+		}
 		if jb.sweep && !fc.has("nopanic") {
 			for _, ob := range vc.obls {
 				if strings.HasPrefix(ob.Kind, "panic.") || ob.Kind == "pre@call" {
@@ -378,8 +434,19 @@ func runCheck(o checkOpts) int {
 		lock[prop] = &LockEntry{}
 	}
 	if o.only == "" {
+		// anchor-lost: a locked contract obligation (postcondition, frame, invariant, ...)
+		// that is no longer generated.  Site-level obligations (one per call site or
+		// per panicking instruction) legitimately come and go with harmless edits, and
+		// occurrence counters (#k) are ignored, so restructuring code is not an alarm.
+		baseSeen := map[string]bool{}
+		for n := range byName {
+			baseSeen[occRe.ReplaceAllString(n, "")] = true
+		}
 		for _, n := range lock[prop].Claimed {
-			if byName[n] == nil {
+			if siteLevelRe.MatchString(n) {
+				continue
+			}
+			if !baseSeen[occRe.ReplaceAllString(n, "")] {
 				ob := &Obligation{Name: n, Kind: "anchor", Status: "missing", Backend: "ssa-scan"}
 				fails = append(fails, failure{o: ob, reason: "anchor-lost: locked obligation is no longer generated from /repo"})
 			}
